@@ -155,7 +155,7 @@ func vfGating(checkGet, checkCall bool, checkRevoke ...bool) {
 					vfTagDeferred(cl, g, n)
 					g.valid[n] = false
 				}
-				w.mq.event("system", "reset", []byte(`{"access":["test.>"]}`))
+				w.mq.event("system", "reset", []byte(`{"access":["test..bad","other.>","test.>"]}`))
 			}
 		default:
 			req := pend[a-firstAnswer]
